@@ -3,6 +3,7 @@
    result line per case.  Everything that decides a result is extracted code; this file only
    converts between text and the extracted data types. *)
 open Model
+type string = Stdlib.String.t   (* the extracted Coq string type must not shadow OCaml's *)
 
 (* ---------- conversions ---------- *)
 let rec nat_of_int i = if i <= 0 then O else S (nat_of_int (i - 1))
@@ -17,7 +18,7 @@ let z_of_int i = if i = 0 then Z0 else if i > 0 then Zpos (pos_of_int i) else Zn
 let int_of_z = function Z0 -> 0 | Zpos p -> int_of_pos p | Zneg p -> - (int_of_pos p)
 
 (* decimal strings beyond the range of OCaml int (for numeric fields up to and over 2^64) *)
-let pos_of_dec (s : string) : positive option =
+let pos_of_dec s : positive option =
   (* binary conversion by repeated division of the decimal string by 2 *)
   let digits = Array.init (String.length s) (fun i -> Char.code s.[i] - 48) in
   let is_zero () = Array.for_all (fun d -> d = 0) digits in
@@ -159,6 +160,72 @@ let run_c03 () =
   let nfile' = int () in let c' = times nfile' (fun () -> n_of_int (int ())) in
   if rewrite_ok_N hs dir c c' rs then "TRUE" else "FALSE"
 
+(* ---------- l2: parser / writer ---------- *)
+let bytes_of_ints l = List.map n_of_int l
+let ints_of_bytes l = List.map int_of_n l
+let hexb (l : n list) = hex_of (ints_of_bytes l)
+let opt_hex = function None -> "/" | Some bs -> hexb bs
+let perm_s = function None -> "-" | Some p -> string_of_int (int_of_n p)
+(* target lines can exceed the range of OCaml int only beyond 2^62: print via string *)
+(* decimal rendering of arbitrarily large positives: digits (least significant first) doubled per bit *)
+let string_of_pos p =
+  let rec bits = function XH -> [1] | XO q -> 0 :: bits q | XI q -> 1 :: bits q in
+  let msb_first = List.rev (bits p) in
+  let step digits bit =
+    let carry = ref bit in
+    let ds = List.map (fun d -> let v = d * 2 + !carry in carry := v / 10; v mod 10) digits in
+    if !carry > 0 then ds @ [!carry] else ds in
+  let digits = List.fold_left step [0] msb_first in
+  String.concat "" (List.rev_map string_of_int digits)
+let string_of_z = function Z0 -> "0" | Zpos p -> string_of_pos p | Zneg p -> "-" ^ string_of_pos p
+
+let dump_filepatch (fp : pfilepatch) =
+  let kind = (match fp.pf_kind with Modify -> "M" | Create -> "C" | Delete -> "D") in
+  let hs = List.map (fun ph ->
+    let h = ph.ph_hunk in
+    Printf.sprintf " <%s %s %d %d fn=%s R[%s] A[%s]>" (string_of_z h.h_rline) (string_of_z h.h_aline)
+      (int_of_nat h.h_pre) (int_of_nat h.h_suf) (hexb ph.ph_func)
+      (String.concat "," (List.map hexb h.h_rem)) (String.concat "," (List.map hexb h.h_add))) fp.pf_hunks in
+  Printf.sprintf "{%s old=%s new=%s ren%d op%s np%s oh=%s nh=%s hunks=%d%s}" kind
+    (opt_hex fp.pf_old) (opt_hex fp.pf_new) (if fp.pf_rename then 1 else 0) (perm_s fp.pf_operm) (perm_s fp.pf_nperm)
+    (opt_hex fp.pf_ohash) (opt_hex fp.pf_nhash) (List.length fp.pf_hunks) (String.concat "" hs)
+
+let dump_patch (p : ppatch) =
+  Printf.sprintf "header=%s n=%d%s" (hexb p.pp_header) (List.length p.pp_fps)
+    (String.concat "" (List.map (fun fp -> " " ^ dump_filepatch fp) p.pp_fps))
+
+let err_name = function
+  | NoMatch -> "NoMatch" | UnsupportedMetadata -> "UnsupportedMetadata"
+  | MissingFilenameForHunk -> "MissingFilenameForHunk" | UnexpectedEndOfLine -> "UnexpectedEndOfLine"
+  | UnexpectedEndOfFile -> "UnexpectedEndOfFile" | BadHunkHeader -> "BadHunkHeader"
+  | BadLineInHunk -> "BadLineInHunk" | NumberTooBig -> "NumberTooBig" | BadNumber -> "BadNumber"
+  | BadMode -> "BadMode" | BadSequence -> "BadSequence" | BadHash -> "BadHash" | UnsafeFilename -> "UnsafeFilename"
+
+let run_parse () =
+  let strip = int () in let wh = int () <> 0 in
+  let bs = bytes_of_ints (hexbytes ()) in
+  match parse_patch bs (nat_of_int strip) wh with
+  | Ok (Parsed p) -> "OK " ^ dump_patch p
+  | Ok (ParseErr e) -> "ERR " ^ err_name e
+  | Panic -> "PANIC" | Diverge -> "DIVERGE"
+
+let run_rt () =
+  let bs = bytes_of_ints (hexbytes ()) in
+  match parse_patch bs O true with
+  | Ok (ParseErr e) -> "SKIP ERR " ^ err_name e
+  | Panic -> "PANIC" | Diverge -> "DIVERGE"
+  | Ok (Parsed p) ->
+    (match write_patch p with
+     | Panic -> "PANIC" | Diverge -> "DIVERGE"
+     | Ok w1 ->
+       (match parse_patch w1 O true with
+        | Ok (ParseErr e) -> Printf.sprintf "OK p1=%s w1=%s REPARSE-ERR %s" (dump_patch p) (hexb w1) (err_name e)
+        | Panic -> "PANIC" | Diverge -> "DIVERGE"
+        | Ok (Parsed p2) ->
+          (match write_patch p2 with
+           | Ok w2 -> Printf.sprintf "OK p1=%s w1=%s p2=%s w2=%s" (dump_patch p) (hexb w1) (dump_patch p2) (hexb w2)
+           | Panic -> "PANIC" | Diverge -> "DIVERGE")))
+
 (* ---------- main loop ---------- *)
 let run_case line =
   toks := List.filter (fun s -> s <> "") (String.split_on_char ' ' line);
@@ -168,6 +235,8 @@ let run_case line =
   | "l1" -> run_l1 ()
   | "c02" -> run_c02 ()
   | "c03" -> run_c03 ()
+  | "parse" -> run_parse ()
+  | "rt" -> run_rt ()
   | k -> "UNKNOWN " ^ k
 
 let () =
